@@ -125,10 +125,10 @@ Collect(i) == /\ i \in Mort
               /\ act' = [name |-> "Collect", i |-> i, attr |-> "", v |-> 0]
               /\ UNCHANGED <<demand, spawned, last, ever, obs, n0, foreign>>
 
-\* aggregated properties; utilisation / allocation scaled by 4 * 12
+\* aggregated properties; utilisation / allocation scaled by 4 * 60 (exact for up to 6 children)
 WithSupply == {i \in Alive : cs[i].s > 0}
-Mean(attr) == IF WithSupply = {} THEN 48
-              ELSE (12 * SumField(cs, WithSupply, attr)) \div Cardinality(WithSupply)
+Mean(attr) == IF WithSupply = {} THEN 240
+              ELSE (60 * SumField(cs, WithSupply, attr)) \div Cardinality(WithSupply)
 Read == /\ obs' = [supply |-> TotalSupply, demand |-> demand, u |-> Mean("u"), a |-> Mean("a")]
         /\ act' = [name |-> "Read", i |-> 0, attr |-> "", v |-> 0]
         /\ UNCHANGED <<cs, demand, spawned, last, ever, n0, foreign>>
